@@ -274,6 +274,12 @@ def run(ctx):
             case["hist"] = [["add_order_link", r.randrange(40), r.randrange(40)] for _ in range(12)]
         if mode == "history":
             case["hist"] = gen_history(r, max_steps=30, metadata=True)
+            if (i // 4) % 3 == 0:
+                # serializations between deletions and index re-use
+                from vf.gen.histories import gen_probe_history
+
+                case["hist"] = gen_probe_history(r)
+                ctx.feat("feature:serialized-mid-history")
         if mode == "attr-rich":
             case["plant"] = c02.gen_plant(r, 4)
             if r.random() < 0.5:
